@@ -251,15 +251,15 @@ def text_result(t1, t2, **kw):
 # generators
 # ---------------------------------------------------------------------------
 
-def planted(rng):
+def planted(rng, small=False):
     """a shared pool of sub-lists planted into several sibling lists on both
     sides; t2 holds near-duplicates, so the SAME pair of sub-lists is compared
     under several parents (cache hits) and many distinct pairs occur (evictions).
     Unless `mixed`, every item is a list of `width` distinct ints, which keeps the
     rough distance symmetric (the guard of C17_cache_transparent_partial)."""
-    npool = rng.randint(3, 6)
-    mixed = rng.random() < 0.3      # str markers / ragged sub-lists: distances are then often asymmetric (finding C17-K17)
-    width = rng.randint(4, 7)
+    npool = 3 if small else rng.randint(3, 6)
+    mixed = (not small) and rng.random() < 0.3      # str markers / ragged sub-lists: distances are then often asymmetric (finding C17-K17)
+    width = 4 if small else rng.randint(4, 7)
 
     def fresh(lo, hi):
         return rng.sample(range(lo, hi), width)
@@ -273,7 +273,7 @@ def planted(rng):
     def marker(s):
         return ("u%d" % s) if mixed else [100 + 10 * s + i for i in range(width)]
     consts = ["c", "d"] if mixed else [[200 + i for i in range(width)], [300 + i for i in range(width)]]
-    nsib = rng.randint(3, 5)
+    nsib = 3 if small else rng.randint(3, 5)
     t1, t2 = [], []
     for s in range(nsib):
         k = rng.randint(2, npool)
@@ -285,7 +285,7 @@ def planted(rng):
         t1.append(a)
         t2.append(b)
     # enough unchanged items at the root for the intersection cutoff (0.7) to allow pairing
-    common = ["x%d" % i for i in range(nsib + 2)]
+    common = ["x%d" % i for i in range(3 if small else nsib + 2)]
     t1 += common
     t2 += common
     rng.shuffle(t2)
@@ -644,7 +644,7 @@ def _trace_task(args):
     base, pure, _ = record_run(t1, t2, levels=levels, **kw)
     got, cached, ev = record_run(t1, t2, cache_size=cs, cache_tuning_sample_size=tune, **kw)
     if isinstance(base, str) or isinstance(got, str):
-        return (t1r, t2r, rep, cs, tune, got == base, "raised", ("", ""), "", [], 0, ev["evictions"], 0, 0)
+        return (t1r, t2r, rep, cs, tune, got == base, "raised", ("", "", ""), "", [], 0, ev["evictions"], 0, 0)
     fp, fc = flatten(pure), flatten(cached)
     kid, vid = {}, {}
     for n in fp + fc:
@@ -663,6 +663,7 @@ def _trace_task(args):
             else:
                 consistent = "no"
     sched = schedule(cached)
+    texpr = "run_trace %d %s (%s)" % (cs, core.coq_list("true" if b else "false" for b in sched), coq_prog(pure, kid, vid))
     cexpr = "check_consistent (%s)" % coq_prog(pure, kid, vid)
     log = cached_log(cached, kid, vid)
     if len(levels) == len(pure) and len({repr(p) for p, _ in levels}) == len(levels):
@@ -682,21 +683,25 @@ def _trace_task(args):
     else:
         expr = "BAD-LEVELS"
         oexpr = ""
-    return (t1r, t2r, rep, cs, tune, got == base, consistent, (expr, oexpr), cexpr, log,
+    return (t1r, t2r, rep, cs, tune, got == base, consistent, (expr, oexpr, texpr), cexpr, log,
             sum(1 for x in cached_log(cached, kid, vid) if x[1] == 1), ev["evictions"], len(fp), len(sched) - sum(sched))
 
 
 def correspondence(ctx, inputs, pool):
     jobs = []
+    small_set = {(repr(a), repr(b)) for a, b, kind in inputs if kind == "planted-small"}
     for i, (a, b, kind) in enumerate(inputs):
         for rep in (False, True):
-            for cs, tune in (((1, 0), (2, 0), (7, 0), (5000, 0), (2, 1), (7, 2), (3, 10)) if ctx.thorough else ((1, 0), (7, 0), (5000, 0), (2, 1), (7, 2))):
+            settings = ((1, 0), (2, 0), (7, 0), (5000, 0), (2, 1), (7, 2), (3, 10)) if ctx.thorough else \
+                (((7, 0), (2, 1)) if kind == "planted-small" else ((1, 0), (7, 0), (5000, 0), (2, 1), (7, 2)))
+            for cs, tune in settings:
                 jobs.append((repr(a), repr(b), rep, cs, tune))
     res = pool.map(_trace_task, jobs, chunksize=2)
     cases, ccases, ocases = [], [], []
     seen_o = set()
     hits = evs = disabled = 0
-    for t1r, t2r, rep, cs, tune, same, consistent, (expr, oexpr), cexpr, log, nh, nev, ncalls, ndis in res:
+    tcases = []
+    for t1r, t2r, rep, cs, tune, same, consistent, (expr, oexpr, texpr), cexpr, log, nh, nev, ncalls, ndis in res:
         tag = {"t1": t1r, "t2": t2r, "report_repetition": rep, "cache_size": cs, "cache_tuning_sample_size": tune}
         if not same:
             ctx.fail(dict(tag, kind="settings", ignore_order=True, cache_purge_level=1, **({"raised": True} if consistent == "raised" else {})),
@@ -726,17 +731,20 @@ def correspondence(ctx, inputs, pool):
             ctx.count("trace:with_eviction")
         if ndis:
             ctx.count("trace:cache_switched_off_mid_run")
-        cases.append((expr, log, tag))
+        tcases.append((texpr, log[1], tag))
+        if ctx.thorough or ((t1r, t2r) in small_set and (cs, tune) in ((7, 0), (2, 1))):
+            cases.append((expr, log, tag))
         ccases.append((cexpr, True, tag))
-        if (t1r, t2r, rep) not in seen_o:
+        if (t1r, t2r, rep) not in seen_o and (ctx.thorough or ((t1r, t2r) in small_set and not rep)):
             seen_o.add((t1r, t2r, rep))
             ocases.append((oexpr, True, tag))
     ctx.note("trace_cache_hits", hits)
     ctx.note("trace_evictions", evs)
     ctx.note("trace_disabled_lookups", disabled)
-    ctx.coq_cases("st_trace", HEADER, cases, shard=24, label="whole_run_one_cache:result+every_cache_event")
+    ctx.coq_cases("memo_trace", HEADER, tcases, shard=40, label="memo_model:every_cache_event_of_the_run")
+    ctx.coq_cases("st_trace", HEADER, cases, shard=3, label="diff_model_with_one_cache:result+every_cache_event")
     ctx.coq_cases("memo_consistent", HEADER, ccases, shard=80, label="same_key_same_value")
-    ctx.coq_cases("st_order", HEADER, ocases, shard=12, label="t2_key_order_traversal_lists_the_entries_of_diff_io")
+    ctx.coq_cases("st_order", HEADER, ocases, shard=3, label="t2_key_order_traversal_lists_the_entries_of_diff_io")
 
 
 # ---------------------------------------------------------------------------
@@ -890,19 +898,37 @@ def delta_parked(ctx):
 def run(ctx):
     rng = ctx.rng
     sys.setrecursionlimit(10000)
-    n_pl = 40 if ctx.thorough else 6
-    n_ot = 60 if ctx.thorough else 8
+    n_pl = 40 if ctx.thorough else 4
+    n_ot = 60 if ctx.thorough else 6
     inputs = gen_inputs(rng, n_pl, n_ot)
     replay_witnesses(ctx)
     inputs.append(K17_WITNESS + ("k17-witness",))
     for a, b, kind in inputs[:2] + inputs[n_pl:n_pl + 1]:
         ctx.sample({"t1": repr(a)[:400], "t2": repr(b)[:400], "shape": kind})
+    import time
+    tm = {}
+    t0 = time.time()
     with mp.get_context("fork").Pool(core.NCPU) as pool:
-        correspondence(ctx, inputs[: (n_pl + 10 if ctx.thorough else n_pl + 2)] + [inputs[-1]], pool)
+        smalls = [planted(rng, small=True) + ("planted-small",) for _ in range(12 if ctx.thorough else 3)]
+        for _ in range(6 if ctx.thorough else 1):
+            # two cache-using children under one dict whose key order differs between t1 and t2: the cache state
+            # must flow through them in the order of t2's keys
+            (a1, b1), (a2, b2) = planted(rng, small=True), planted(rng, small=True)
+            if isinstance(a1, list) and isinstance(a2, list):
+                smalls.append(({"p": a1, "q": a2, "n": 1}, {"q": b2, "n": 1, "p": b1}, "planted-small"))
+        correspondence(ctx, smalls + inputs[: (n_pl + 10 if ctx.thorough else n_pl + 2)] + [inputs[-1]], pool)
+        tm["correspondence"] = round(time.time() - t0, 1)
+        t0 = time.time()
         oracle_grid(ctx, inputs, pool, full=ctx.thorough)
+        tm["grid"] = round(time.time() - t0, 1)
+        t0 = time.time()
         oracle_hashes(ctx, pool, core.NCPU, 12 if ctx.thorough else 3, 6 if ctx.thorough else 2)
+        tm["hashes"] = round(time.time() - t0, 1)
+    t0 = time.time()
     delta_parked(ctx)
-    threaded(ctx, 8 if ctx.thorough else 3, 12, 120 if ctx.thorough else 60)
+    threaded(ctx, 8 if ctx.thorough else 3, 12, 120 if ctx.thorough else 48)
+    tm["threads"] = round(time.time() - t0, 1)
+    ctx.note("phase_wall_s", tm)
 
 
 def replay(ctx, data):
